@@ -16,7 +16,7 @@ import itertools
 import re
 
 from engine import extract as X
-from engine.core import Job
+from engine.core import Job, syntactic_frame_job
 from engine import replay as R
 
 REL = 'include/yorel/yomm2/core.hpp'
@@ -85,8 +85,7 @@ def get_templates():
     t['resolve_multi_first'] = X.find_function(REL, SIG + r'template<typename MethodArgList, typename ArgType, typename\.\.\. MoreArgTypes>\s*'
                                                     r'inline std::uintptr_t method<Key, R\(A\.\.\.\), Policy>::resolve_multi_first\(\s*const ArgType& arg, const MoreArgTypes&\.\.\. more_args\)')
     t['resolve_multi_next'] = X.find_function(REL, SIG + r'template<\s*std::size_t VirtualArg, typename MethodArgList, typename ArgType,\s*typename\.\.\. MoreArgTypes>\s*'
-                                                   r'inline std::uintptr_t method<Key, R\(A\.\.\.\), Policy>::resolve_multi_next\(\s*'
-                                                   r'const std::uintptr_t\* dispatch, const ArgType& arg,\s*const MoreArgTypes&\.\.\. more_args\)')
+                                                   r'inline std::uintptr_t method<Key, R\(A\.\.\.\), Policy>::resolve_multi_next\([^{;]*\)')
     return t
 
 
@@ -362,6 +361,17 @@ def jobs(tier):
         configs.append((s, {'static': True, 'checks': False, 'indirect': False}))
     fdesc = ['%s method::%s sha256:%s' % (t[k].where(), k, t[k].sha()) for k in
              ('resolve', 'resolve_uni', 'resolve_multi_first', 'resolve_multi_next', 'vptr', 'check_static_offset')]
+    # C16: the call path only reads shared state - syntactic frame of the templates themselves
+    for k in ('resolve', 'resolve_uni', 'resolve_multi_first', 'resolve_multi_next', 'vptr'):
+        # parameters passed by value (pointers included) are locals; reference parameters are not
+        hdr = X.norm_ws(t[k].header)
+        plist = hdr[hdr.rfind('(') + 1:hdr.rfind(')')]
+        prm = [m.group(1) for m in re.finditer(r'(\w+)\s*(?:,|$)', plist) if '&' not in plist[max(0, plist.rfind(',', 0, m.start()) + 1):m.start()]]
+        bad = X.nonlocal_assignments(t[k].body, prm)
+        if bad:
+            out.append(syntactic_frame_job('resolve', 'frame-%s' % k, 'method::' + k, bad, ['C16', 'C01'], fdesc))
+    if any(j.config.startswith('frame-') for j in out):
+        return out          # the shape jobs assume the templates' read-only structure
     for s, f in configs:
         name = '%s-static%d-checks%d-indirect%d' % (s, f['static'], f['checks'], f['indirect'])
         try:
